@@ -283,3 +283,24 @@ def solve_obligations(obs, nproc=NPROC):
             out[r[0]] = r[1:]
     _OBS = []
     return out
+
+
+def quick_check(assertions, ms=1000):
+    """satisfiability through the z3 CLI with a hard kill (the API's timeout is not always honoured by the
+    sequence solver); -> "sat" | "unsat" | "unknown" """
+    sol = z3.Solver()
+    for a in assertions:
+        sol.add(a)
+    text = sol.to_smt2()
+    with tempfile.NamedTemporaryFile("w", suffix=".smt2", delete=False) as f:
+        f.write(text)
+        path = f.name
+    try:
+        p = subprocess.run(["z3-new", "-smt2", "-T:%d" % max(1, (ms + 999) // 1000), path], capture_output=True, text=True,
+                           timeout=ms / 1000.0 + 2)
+        r = p.stdout.strip().split("\n")[0].strip()
+        return r if r in ("sat", "unsat") else "unknown"
+    except subprocess.TimeoutExpired:
+        return "unknown"
+    finally:
+        os.unlink(path)
